@@ -1,7 +1,7 @@
 """C01 - calling a generated trait method is calling the original function.
 Oracle: differential twin (direct call vs trait call on the same app) + generator truth."""
 from .. import core, selftest
-from ..gen.fncases import FnCaseBuilder
+from ..gen.fncases import FnCaseBuilder, macro_case
 
 PROP = "C01"
 
@@ -45,6 +45,10 @@ def gen_cases(n, seed, unimock, label, profile=None):
         prof = dict(profile or {})
         if unimock_expanded(macro, opts, unimock):
             prof.update(UNIMOCK_SAFE)
+        if rng.random() < 0.12:
+            # fns stamped out by macro_rules!: identifiers of one signature live in different hygiene contexts
+            cases.append(macro_case(cid, rng))
+            continue
         b = FnCaseBuilder(cid, rng, profile=prof, options=opts, macro=macro, unimock_feature=unimock).build()
         cases.append(b.case())
     return cases
